@@ -7,6 +7,7 @@ CONSTANTS
   Vals = {"o1"}
   Depth = 3
   MaxObjs = 1
+  Parents = {"none"}
   Variant = "pin_inherited"
 INVARIANT ExactlyOnce
 INVARIANT RightList
